@@ -699,3 +699,16 @@ def node_body(fname: str, a: tuple, k: dict):
         raise (ValueError if f == "V" else UserError)(f"boom in {nid}")
     c.node_exit(nid, serial, "ok")
     return Tok(nid, serial)
+
+
+def lib_call(name: str, fn, a: tuple, k: dict):
+    """Body of the decorated library functions of the PROG engine: traced, gated like node_body, then the pure function."""
+    c = ctl()
+    nid, serial = c.node_enter(name, a, k)
+    try:
+        r = fn(*a, **k)
+    except BaseException:
+        c.node_exit(nid, serial, "raise")
+        raise
+    c.node_exit(nid, serial, "ok")
+    return r
